@@ -1,6 +1,7 @@
 package main
 
 import (
+	"strconv"
 	"database/sql"
 	"encoding/json"
 	"fmt"
@@ -16,7 +17,17 @@ import (
 )
 
 // watchdog runs f with panic recovery and a timeout.
+// watchdogScale stretches every watchdog: they exist to turn a real hang into a verdict, not to measure speed, so
+// they are generous by default (a slow or heavily loaded machine must not produce "hang" verdicts).
+var watchdogScale = func() time.Duration {
+	if v, err := strconv.Atoi(os.Getenv("VERIF_WATCHDOG_SCALE")); err == nil && v > 0 {
+		return time.Duration(v)
+	}
+	return 3
+}()
+
 func watchdog(d time.Duration, f func() string) string {
+	d *= watchdogScale
 	ch := make(chan string, 1)
 	go func() {
 		defer func() {
